@@ -546,6 +546,13 @@ def pure_stream(res, rnd, n_per, real, sigs, broken_model):
             cases += [(key, [I(a), I(b)], ret) for a in INTS[:20] for b in (-1, 0, 1, 2, 3, 10, MAX, MIN)]
         if params == ["str"]:
             cases += [(key, [S(s)], ret) for s in STRS]
+        if params == ["str", "str"]:
+            # a second string whose BYTE length ends inside a multi-byte character of the first (and the other way round)
+            MB = ["żółw", "€uro", "a€", "中文x", "é", "a\U0001F600b", "xż"]
+            SH = ["z", "eu", "ab", "a", "ż", "", "中", "x", "€", "abc", "\U0001F600"]
+            cases += [(key, [S(a), S(b)], ret) for a in MB for b in SH] + [(key, [S(b), S(a)], ret) for a in MB[:3] for b in SH[:5]]
+        if params == ["str", "str", "str"]:
+            cases += [(key, [S(a), S(b), S(c)], ret) for a in ("żółw", "a€a", "中文") for b in ("z", "a", "€", "", "ó") for c in ("", "Q", "ż")]
     lines = []
     for key, args, _ in cases:
         asrc = "[" + ", ".join(src_of(a) for a in args) + "]" if args else "[0; 0]"
